@@ -46,13 +46,17 @@ type OpResult struct {
 type Event struct {
 	Code     int
 	Args     []int64
-	RPC      *RPC     // for EvStep / EvReply
-	Mode     int      // for EvStep
-	NewRPCs  []*RPC   // calls that appeared (parked) as a consequence, canonical order
-	Resumed  []*RPC   // calls whose callers were resumed (with Delivered flag)
+	RPC      *RPC   // for EvStep / EvReply
+	Mode     int    // for EvStep
+	NewRPCs  []*RPC // calls that appeared (parked) as a consequence, canonical order
+	Resumed  []*RPC // calls whose callers were resumed (with Delivered flag)
 	Finished []OpResult
-	Touched  []int // tractservers re-dumped
+	Touched  []int   // tractservers re-dumped
+	DurAfter []int64 // durable hosts of the stepped RPC's tract after the event (curator->ts RPCs)
+	Hint     []int64 // oracle inputs for the model (placement choices)
 	Obs      []int64
+	OpLines  [][]int64 // trace lines of this event (computed when the event happened)
+	ObsLines [][]int64
 }
 
 type BlobState struct {
@@ -88,7 +92,7 @@ type Weights struct {
 	Deliver, ReplyExec, Write, Read, Replicate, ReplicateDuringWrite, ThirdPartyFix, Restart, Leader, LeaderDuringTask, Heartbeat, Complaint, Probe int
 	// per-mille mode probabilities for a delivery
 	PLose, PFail, PTwice, PExecOnly int
-	PReplyLose                   int
+	PReplyLose                      int
 }
 
 func DefaultWeights() Weights {
@@ -104,25 +108,25 @@ type Action struct {
 }
 
 type Driver struct {
-	Cl      *Cluster
-	R       *vw.Rng
-	W       Weights
-	Snap    *Snap
-	Blobs   []*BlobState
-	Clients []*ClientState
-	Acks    int
-	NextWid int
-	Big     bool // use offsets around the 8 MiB tract boundaries
+	Cl        *Cluster
+	R         *vw.Rng
+	W         Weights
+	Snap      *Snap
+	Blobs     []*BlobState
+	Clients   []*ClientState
+	Acks      int
+	NextWid   int
+	Big       bool // use offsets around the 8 MiB tract boundaries
 	MaxTracts int
-	Events  []*Event
-	Bads    []Bad
-	Case    string
-	Extra   func(d *Driver) []Action // property-specific actions
-	OnRead  func(d *Driver, res OpResult, m *opMeta)
-	tasks   []*Op // running curator tasks
-	lastRPC *RPC
-	known   map[*RPC]bool
-	nFaults int
+	Events    []*Event
+	Bads      []Bad
+	Case      string
+	Extra     func(d *Driver) []Action // property-specific actions
+	OnRead    func(d *Driver, res OpResult, m *opMeta)
+	tasks     []*Op // running curator tasks
+	lastRPC   *RPC
+	known     map[*RPC]bool
+	nFaults   int
 }
 
 // NewDriver builds a cluster with nTS tractservers and clients (0 = the writer, caching per flag).
@@ -141,6 +145,7 @@ func NewDriver(r *vw.Rng, nTS int, caches []bool, caseID string) *Driver {
 	for _, c := range caches {
 		ev.Args = append(ev.Args, b2i(c))
 	}
+	ev.OpLines, ev.ObsLines = d.Lines(ev)
 	d.Events = append(d.Events, ev)
 	return d
 }
@@ -190,7 +195,9 @@ func (d *Driver) NewBlob(repl int) *BlobState {
 		c.Blobs[b.Idx] = blb.VerifBlob(d.Cl.Cli[c.Idx], id)
 		c.Tau[b.Idx] = map[int]int{}
 	}
-	d.Events = append(d.Events, &Event{Code: EvNewBlob, Args: []int64{int64(b.Idx), int64(repl)}, Obs: []int64{int64(uint64(id) & 0xffffffff)}})
+	ev := &Event{Code: EvNewBlob, Args: []int64{int64(b.Idx), int64(repl)}}
+	ev.OpLines, ev.ObsLines = d.Lines(ev)
+	d.Events = append(d.Events, ev)
 	return b
 }
 
@@ -274,6 +281,14 @@ func (d *Driver) StartThirdPartyFix(blob, tract, version, badTS int) *Event {
 // ---- scheduling decisions ----
 
 func (d *Driver) Step(r *RPC, mode int) *Event {
+	// among calls with identical descriptors always take the oldest (the model does the same)
+	for _, x := range d.Cl.S.Pending() {
+		if x.State == StParked && x != r && !lessKey(x.key(), r.key()) && !lessKey(r.key(), x.key()) {
+			if x.Seq < r.Seq {
+				r = x
+			}
+		}
+	}
 	ev := &Event{Code: EvStep, RPC: r, Mode: mode}
 	d.lastRPC = r
 	if mode != ModeDeliver {
@@ -284,6 +299,11 @@ func (d *Driver) Step(r *RPC, mode int) *Event {
 }
 
 func (d *Driver) Reply(r *RPC, lose bool) *Event {
+	for _, x := range d.Cl.S.Pending() {
+		if x.State == StExecuted && !x.AutoSend && x != r && !lessKey(x.key(), r.key()) && !lessKey(r.key(), x.key()) && x.Seq < r.Seq {
+			r = x
+		}
+	}
 	ev := &Event{Code: EvReply, RPC: r, Args: []int64{b2i(lose)}}
 	d.Cl.S.Reply(r, lose)
 	return d.after(ev)
@@ -336,45 +356,8 @@ func (d *Driver) Probe(blob, tract, dv, dt int) *Event {
 	return d.after(ev)
 }
 
-// ErrClass maps an error to a small stable code for traces.
-func ErrClass(e core.Error) int {
-	switch e {
-	case core.NoError:
-		return 0
-	case core.ErrEOF:
-		return 1
-	case core.ErrRPC:
-		return 2
-	case core.ErrVersionMismatch:
-		return 3
-	case core.ErrNoSuchTract:
-		return 4
-	case core.ErrConflictingState:
-		return 5
-	case core.ErrInvalidArgument:
-		return 6
-	case core.ErrAllocHost:
-		return 7
-	case core.ErrHostNotExist:
-		return 8
-	case core.ErrInvalidState:
-		return 9
-	case core.ErrWrongTractserver:
-		return 10
-	case core.ErrNoSuchBlob:
-		return 11
-	case core.ErrExtendConflict:
-		return 12
-	case core.ErrAlreadyExists:
-		return 13
-	case core.ErrBadVersion:
-		return 14
-	}
-	if e == core.ErrLeaderContinuityBroken {
-		return 15
-	}
-	return 100 + int(e)
-}
+// ErrClass is the error's numeric code (the model uses the same constants, regenerated from /repo).
+func ErrClass(e core.Error) int { return int(e) }
 
 // after: settle, collect consequences, run the per-step monitors.
 func (d *Driver) after(ev *Event) *Event {
@@ -400,6 +383,13 @@ func (d *Driver) after(ev *Event) *Event {
 						d.Clients[r.Client].Tau[bi][int(ti.Tract.Index)] = tau
 					}
 				}
+			}
+		}
+	}
+	if ev.RPC != nil && ev.RPC.Client < 0 && ev.RPC.Tract >= 0 {
+		if bi := d.blobIdx(ev.RPC.Blob); bi >= 0 {
+			for _, h := range d.Cl.D.Tract(d.tractID(bi, ev.RPC.Tract)).Hosts {
+				ev.DurAfter = append(ev.DurAfter, int64(h))
 			}
 		}
 	}
@@ -463,6 +453,7 @@ func (d *Driver) after(ev *Event) *Event {
 			}
 		}
 	}
+	ev.OpLines, ev.ObsLines = d.Lines(ev)
 	d.Events = append(d.Events, ev)
 	return ev
 }
@@ -694,6 +685,23 @@ func (d *Driver) randomBad(blob, tract int) []int {
 	return bad
 }
 
+// lockLoad counts activities of the current incarnation that hold or wait for a tract's lock.
+func (d *Driver) lockLoad(blob, tract int) int {
+	n := 0
+	gen := d.Cl.Cur.Gen
+	for _, t := range d.tasks {
+		if m, ok := t.Meta.(*opMeta); ok && m != nil && m.gen == gen && m.blob == blob && m.tract == tract {
+			n++
+		}
+	}
+	for _, r := range d.Cl.S.Pending() {
+		if r.Kind == KFixVersion && r.State == StRunning && r.ExecGen == gen && d.blobIdx(r.Blob) == blob && r.Tract == tract {
+			n++
+		}
+	}
+	return n
+}
+
 // Actions lists what the scheduler may do now.
 func (d *Driver) Actions() []Action {
 	var acts []Action
@@ -707,6 +715,9 @@ func (d *Driver) Actions() []Action {
 		r := r
 		switch r.State {
 		case StParked:
+			if r.Kind == KFixVersion && d.lockLoad(d.blobIdx(r.Blob), r.Tract) >= 2 {
+				continue // at most one waiter per tract lock (wake-up order of several waiters is not deterministic)
+			}
 			acts = append(acts, Action{w.Deliver, func() { d.Step(r, d.pickMode(r)) }})
 			if r.Kind == KWrite || r.Kind == KCreate {
 				if bi := d.blobIdx(r.Blob); bi >= 0 {
@@ -748,7 +759,9 @@ func (d *Driver) Actions() []Action {
 	if len(dts) > 0 && len(d.tasks) < 3 {
 		acts = append(acts, Action{w.Replicate, func() {
 			t := dts[d.R.Intn(len(dts))]
-			d.StartReplicate(t[0], t[1], d.randomBad(t[0], t[1]))
+			if d.lockLoad(t[0], t[1]) < 2 {
+				d.StartReplicate(t[0], t[1], d.randomBad(t[0], t[1]))
+			}
 		}})
 		if len(d.tasks) == 0 {
 			for t := range writesParked {
@@ -766,7 +779,9 @@ func (d *Driver) Actions() []Action {
 			if len(st.Hosts) > 0 && d.R.Chance(4, 5) {
 				h = int(st.Hosts[d.R.Intn(len(st.Hosts))])
 			}
-			d.StartThirdPartyFix(t[0], t[1], v, h)
+			if d.lockLoad(t[0], t[1]) < 2 {
+				d.StartThirdPartyFix(t[0], t[1], v, h)
+			}
 		}})
 		acts = append(acts, Action{w.Probe, func() {
 			t := dts[d.R.Intn(len(dts))]
@@ -780,7 +795,11 @@ func (d *Driver) Actions() []Action {
 				c := c
 				blobID := c[0] >> 16
 				if bi := d.blobIdx(blobID); bi >= 0 {
-					acts = append(acts, Action{w.Complaint, func() { d.StartReplicate(bi, int(c[0]&0xffff), []int{int(c[1])}) }})
+					acts = append(acts, Action{w.Complaint, func() {
+						if d.lockLoad(bi, int(c[0]&0xffff)) < 2 {
+							d.StartReplicate(bi, int(c[0]&0xffff), []int{int(c[1])})
+						}
+					}})
 				}
 			}
 		}
